@@ -70,6 +70,8 @@ type InstCfg struct {
 	AuthToken string
 	// Clients returns the client managers to register (nil = bare instance)
 	Clients func(nc *nats.Conn) []client.RunStop
+	// Ports, if set, are reused (NATS, HTTP, NATS-HTTP, NATS-WS): a restarted instance keeps its address
+	Ports [4]int
 }
 
 // Instance is a running in-process instance.
@@ -82,6 +84,7 @@ type Instance struct {
 	Dir      string
 	ownDir   bool
 	Started  time.Time
+	Ports    [4]int
 	runErr   chan error
 	stopOnce sync.Once
 	conns    []*nats.Conn
@@ -104,13 +107,18 @@ func StartInstance(cfg InstCfg) (*Instance, error) {
 	} else {
 		in.Dir = filepath.Dir(cfg.StoreFile)
 	}
-	np := freePort()
+	ports := cfg.Ports
+	if ports[0] == 0 {
+		ports = [4]int{freePort(), freePort(), freePort(), freePort()}
+	}
+	in.Ports = ports
+	np := ports[0]
 	in.Opts = server.Options{
 		StoreFile:    cfg.StoreFile,
 		NatsPort:     np,
-		HTTPPort:     strconv.Itoa(freePort()),
-		NatsHTTPPort: freePort(),
-		NatsWSPort:   freePort(),
+		HTTPPort:     strconv.Itoa(ports[1]),
+		NatsHTTPPort: ports[2],
+		NatsWSPort:   ports[3],
 		NatsServer:   fmt.Sprintf("nats://127.0.0.1:%d", np),
 		AuthToken:    cfg.AuthToken,
 		ID:           cfg.ID,
